@@ -1409,6 +1409,14 @@ def run_c18(t):
         from mabwiser.mab import NeighborhoodPolicy
         tp = dict(base["np"][1]); tp_snap = snapshot(tp)
         npol = NeighborhoodPolicy.TreeBandit(tree_parameters=tp)
+    # the caller's empty-neighbourhood probabilities (Radius / LSHNearest) and the policy objects themselves
+    p_list = None
+    if base.get("np") and base["np"][0] in ("radius", "lsh") and base["np"][3] is not None:
+        from mabwiser.mab import NeighborhoodPolicy
+        p_list = list(base["np"][3])
+        npol = (NeighborhoodPolicy.Radius(radius=base["np"][1], metric=base["np"][2], no_nhood_prob_of_arm=p_list) if base["np"][0] == "radius"
+                else NeighborhoodPolicy.LSHNearest(n_dimensions=base["np"][1], n_tables=base["np"][2], no_nhood_prob_of_arm=p_list))
+    p_snap = snapshot(p_list); pol_snap = (repr(lp), repr(npol))
     from mabwiser.mab import MAB
     mab = MAB(arms_in, lp, npol, seed=base["seed"])
     if snapshot(arms_in) != arms_snapshot:
@@ -1463,6 +1471,15 @@ def run_c18(t):
                            "lists": str(ref_out[i])[:300], kind: str(out)[:300]}
     if tp is not None and snapshot(tp) != tp_snap:
         return False, {"why": "the caller's tree_parameters dictionary was modified", "after": repr(tp)}
+    # one more arm change at the end (its effect on later calls is not looked at): the caller's policy objects stay as they were
+    try:
+        mab.add_arm(label(97))
+    except Exception:
+        pass
+    if snapshot(p_list) != p_snap:
+        return False, {"why": "the caller's no_nhood_prob_of_arm list was modified", "after": repr(p_list)}
+    if (repr(lp), repr(npol)) != pol_snap:
+        return False, {"why": "a policy object passed by the caller was modified", "before": str(pol_snap)[:300], "after": str((repr(lp), repr(npol)))[:300]}
     return True, {}
 
 # ------------------------------------------------------------------ Simulator (C15, C16)
@@ -1738,3 +1755,114 @@ def run_c15(t):
             return False, {"why": "predictions reported for bandit %s differ from the public-API replay (first difference at test row %d)" % (name, k),
                            "bandit": b, "simulator": str(got[:12]), "replay": str(preds[:12]), "batch_size": bs}
     return True, {}
+
+# ------------------------------------------------------------------ C19
+import pickle
+def gen_c19(rng, tier):
+    """a history, a cut point, and what is done with the copy"""
+    if rng.random() < 0.35:
+        base = gen.gen_cf_case(rng, max_ops=7, warm=True)
+    else:
+        base = gen.gen_ctx_case(rng, max_ops=6, warm=True, lints_nbhd=True)
+    # binarizers: only the picklable kinds (module-level functions), also for arms added later
+    def ok_bz(b):
+        return b is None or b[0] in ("gt", "flip", "const")
+    lp = base["lp"]
+    if lp[0] == "thompson" and not ok_bz(lp[1]):
+        base["lp"] = ("thompson", ("gt", 0.0))
+    base["ops"] = [(("add", o[1], o[2] if ok_bz(o[2]) else ("gt", 0.0)) if o[0] == "add" and o[2] is not None else o) for o in base["ops"]]
+    pos = 0 if rng.random() < 0.15 else rng.randint(0, len(base["ops"]))
+    how = rng.choice(["deepcopy", "pickle2", "pickle3", "pickle4", "pickle5", "fresh_interpreter"])
+    return {"base": base, "pos": pos, "how": how, "seed2": rng.randint(0, 10**9)}
+
+def c19_continuation(base, pos, rng, mab):
+    cont = list(base["ops"][pos:])
+    d, arms, fitted, nrows = history_dims(base, len(base["ops"]))
+    style = base.get("reward_style", "binary")
+    draw = gen.reward_stream(rng, "binary" if base["lp"][0] == "thompson" and base["lp"][1] is None else (style if style != "float" else "dyadic"))
+    n = 8 if base.get("np") and base["np"][0] in ("clusters", "knearest") else rng.randint(1, 6)
+    if arms:
+        dsx = [rng.choice(arms) for _ in range(n)]
+        cxx = None if not mab.is_contextual else gen.gen_ctx(rng, n, d or 2)
+        if cxx is not None and base.get("np") and base["np"][0] == "clusters":
+            for i in range(min(n, 4)): cxx[i][0] = float(i)
+        cont.append(("pfit", dsx, [draw() for _ in range(n)], cxx))
+        cont.append(("pexp", None if cxx is None else gen.gen_ctx(rng, 2, d or 2)))
+        cont.append(("pred", None if cxx is None else [list(cxx[0])]))
+    return cont
+
+def run_c19_batch(tests, tier):
+    """returns the list of (index, info) of failing tests.  Two identical originals A and B are built by driving the same
+    prefix; C is the copy of A.  The continuation runs on C first, then on A, then on B: C = B (the copy behaves like the
+    original) and A = B (using the copy did not affect the original)."""
+    import subprocess
+    work = os.path.join(mwh.ROOT, "build", "work_c19")
+    os.makedirs(work, exist_ok=True)
+    bad = []; jobs = []; pending = []
+    for idx, t in enumerate(tests):
+        base = t["base"]; rng = random.Random(t["seed2"])
+        A, label, inv = mwh.build_mab(base); B, _, _ = mwh.build_mab(base)
+        for o in base["ops"][:t["pos"]]:
+            mwh.apply_op(A, o, label, inv, base); mwh.apply_op(B, o, label, inv, base)
+        cont = c19_continuation(base, t["pos"], rng, A)
+        t["_cont"] = cont
+        try:
+            if t["how"] == "deepcopy":
+                C = copy.deepcopy(A)
+            elif t["how"].startswith("pickle"):
+                C = pickle.loads(pickle.dumps(A, protocol=int(t["how"][-1])))
+            else:
+                fn = os.path.join(work, "b%d.pkl" % idx)
+                with open(fn, "wb") as f:
+                    pickle.dump(A, f, protocol=pickle.HIGHEST_PROTOCOL)
+                C = None
+        except Exception as e:
+            bad.append((idx, {"why": "the bandit cannot be copied (%s): %r" % (t["how"], e)})); continue
+        if C is not None:
+            outC = [mwh.apply_op(C, o, label, inv, base) for o in cont]
+        outA = [mwh.apply_op(A, o, label, inv, base) for o in cont]
+        outB = [mwh.apply_op(B, o, label, inv, base) for o in cont]
+        mode = rel_mode(base)
+        for i, (a, b) in enumerate(zip(outA, outB)):
+            if a[0] != b[0] or not outs_equal(a, b, mode, rtol=1e-12):
+                bad.append((idx, {"why": "using the copy (%s) changed the original: continuation call %d (%s) differs" % (t["how"], i, cont[i][0]),
+                                  "original_after_copy_was_used": str(a)[:300], "reference": str(b)[:300]})); break
+        else:
+            if C is not None:
+                for i, (c, b) in enumerate(zip(outC, outB)):
+                    if c[0] != b[0] or not outs_equal(c, b, mode, rtol=1e-12):
+                        bad.append((idx, {"why": "the copy (%s) answers continuation call %d (%s) differently from the original" % (t["how"], i, cont[i][0]),
+                                          "copy": str(c)[:300], "original": str(b)[:300]})); break
+            else:
+                jobs.append({"pickle": os.path.join(work, "b%d.pkl" % idx), "case": {k: v for k, v in base.items() if not k.startswith("_")}, "ops": cont})
+                pending.append((idx, outB, mode, cont))
+    if jobs:
+        jf = os.path.join(work, "jobs.json")
+        json.dump(jobs, open(jf, "w"), default=str)
+        env = dict(os.environ); env["PYTHONPATH"] = mwh.REPO; env["PYTHONHASHSEED"] = "1"
+        p = subprocess.run(["/venv/bin/python", os.path.join(mwh.ROOT, "harness", "c19_worker.py"), jf], stdout=subprocess.PIPE, stderr=subprocess.PIPE, text=True, env=env)
+        try:
+            res = json.loads(p.stdout.strip().splitlines()[-1])["outs"]
+        except Exception:
+            return [(-1, "fresh-interpreter worker failed: %s" % (p.stderr or p.stdout)[-400:])]
+        for (idx, outB, mode, cont), outC in zip(pending, res):
+            outC = [jsonable_out(o) for o in outC]
+            for i, (c, b) in enumerate(zip(outC, [jsonable_out(json.loads(json.dumps(list(x), default=str))) for x in outB])):
+                if c[0] != b[0] or not outs_equal(c, b, mode, rtol=1e-12):
+                    bad.append((idx, {"why": "the bandit restored from a pickle in a fresh interpreter answers continuation call %d (%s) differently" % (i, cont[i][0]),
+                                      "restored": str(c)[:300], "original": str(b)[:300]})); break
+        for j in jobs:
+            try: os.remove(j["pickle"])
+            except OSError: pass
+    return [(i, d["why"] + " | " + json.dumps({k: v for k, v in d.items() if k != "why"}, default=str)[:600]) for i, d in bad]
+
+def jsonable_out(o):
+    """outputs after a JSON round trip: lists instead of tuples; restore the shape outs_equal expects"""
+    o = list(o)
+    if o[0] in ("exp",):
+        return (o[0], [tuple(x) for x in o[1]])
+    if o[0] in ("exps",):
+        return (o[0], [[tuple(x) for x in d] for d in o[1]])
+    if o[0] in ("arms",):
+        return (o[0], list(o[1]))
+    return tuple(o)
